@@ -44,6 +44,14 @@ import (
 // SMTP (inline mode).
 
 var epEndings = []string{"ok", "ok", "mail-rej", "rcpt-rej", "body-fail", "commit-fail", "rset", "rset-early", "quit", "drop", "drop-in-data"}
+
+// Endings that abort a transaction by a nested MAIL or a repeated EHLO/LHLO.
+// Their permit leaks in session.go are owned by the C03 engineer; they are
+// part of the workload only while epExtraEndings is true (see NOTES.md).
+var epExtra = []string{"nested-mail", "re-ehlo"}
+
+const epExtraEndings = true
+
 var epStages = []string{"none", "sender", "start", "rcpt", "body", "commit"}
 
 type epTx struct {
@@ -128,6 +136,9 @@ func genEndpointScenario(p *prng.R, timeout bool) epScenario {
 			cl := epClient{IP: p.Intn(nip)}
 			for ti, nt := 0, p.Range(1, 3); ti < nt; ti++ {
 				tx := epTx{Domain: p.Intn(ndom), Spelling: p.Intn(3), End: prng.Pick(p, epEndings), Stage: prng.Pick(p, epStages), DwellUS: p.Range(100, 4000)}
+				if extra := p.Chance(1, 6); extra && epExtraEndings {
+					tx.End = prng.Pick(p, epExtra)
+				}
 				if p.Chance(1, 10) {
 					tx.Domain = -1
 				}
@@ -152,13 +163,14 @@ type epHarness struct {
 	lg    *mx.Log
 	mon   *insideMon
 
-	mu      sync.Mutex
-	from    map[string]string // msg id -> MAIL FROM seen by the target/check
-	in      map[string]bool   // msg id -> currently counted inside (target interval)
-	panics  []string
-	hold    chan struct{} // timeout scenario: holders wait here inside Start
-	holding atomic.Int32
-	entered atomic.Int64
+	mu       sync.Mutex
+	from     map[string]string // msg id -> MAIL FROM seen by the target/check
+	in       map[string]bool   // msg id -> currently counted inside (target interval)
+	panics   []string
+	hold     chan struct{} // timeout scenario: holders wait here inside Start
+	holding  atomic.Int32
+	probeSeq atomic.Int64
+	entered  atomic.Int64
 }
 
 var epSeq atomic.Int64
@@ -465,6 +477,7 @@ func (c *epConn) cmd(format string, a ...any) (int, string) {
 
 type epStats struct {
 	tx, delivered, highLoad, mailRefused, rcptRefused, dataFailed, rsets, drops, quits, lost atomic.Int64
+	nested, rehlo                                                                            atomic.Int64
 }
 
 const msgBody = "From: <a@d.example>\r\nSubject: c11\r\n\r\nbody\r\n"
@@ -545,6 +558,26 @@ func (h *epHarness) runClient(ci int, st *epStats, onReply func(ti int, stage st
 				return
 			}
 			continue
+		case "nested-mail":
+			// a second MAIL inside the open transaction, then RSET
+			st.nested.Add(1)
+			if code, _ := conn.cmd("MAIL FROM:<%s>", epSender(ci, ti, tx)); code == 0 {
+				st.lost.Add(1)
+				return
+			}
+			if code, _ := conn.cmd("RSET"); code == 0 {
+				st.lost.Add(1)
+				return
+			}
+			continue
+		case "re-ehlo":
+			// RFC 5321 4.1.4: EHLO inside a transaction aborts it
+			st.rehlo.Add(1)
+			if code, _ := conn.cmd("%s again%d.example", hello, ci); code == 0 {
+				st.lost.Add(1)
+				return
+			}
+			continue
 		case "quit":
 			st.quits.Add(1)
 			conn.cmd("QUIT")
@@ -602,26 +635,37 @@ func (h *epHarness) close() {
 	}
 }
 
-// smtpProbe (inline mode) opens cap = min N over the configured scopes
-// transactions from one address and one sender domain and keeps them open:
-// each must be admitted. With surplus it then checks that one more is refused.
-func (h *epHarness) smtpProbe(c *rep.Case, r *rep.Reporter, surplus bool) {
-	capN := 0
-	binding := ""
-	for _, s := range []string{scAll, scIP, scSrc} {
-		if n := h.sc.Cfg.N(s); n > 0 && (capN == 0 || n < capN) {
-			capN, binding = n, s
-		}
+// smtpProbe (inline mode: the Group object is not reachable) checks the
+// quiescent capacity through SMTP, scope by scope like prober.probeAll: it
+// opens m = min(N_all, N_scope) transactions that share the key of `scope` and
+// use a fresh address / sender domain for the other scopes, and keeps them
+// open (MAIL and RCPT answered 250, no RSET yet): each must be admitted; a 451
+// "High load" is the limiter's refusal after its own 5 s time-out. With
+// surplus it then checks that one more transaction is refused.
+// Returns false when the capacity was not available.
+func (h *epHarness) smtpProbe(c *rep.Case, r *rep.Reporter, scope string, surplus bool) bool {
+	nAll, nS := h.sc.Cfg.N(scAll), h.sc.Cfg.N(scope)
+	m := minPos(nAll, nS)
+	if m == 0 {
+		return true
 	}
-	if capN == 0 {
-		return
+	binding := scope
+	if nAll != 0 && (nS == 0 || nAll < nS) {
+		binding = scAll
 	}
 	hello := "EHLO"
 	if h.sc.Proto == "lmtp" {
 		hello = "LHLO"
 	}
-	open := func(k int) (*epConn, int) {
-		conn, err := epDial(h.addr, epIP(0))
+	open := func() (*epConn, int) {
+		ip, dom := epIP(0), "d0.example"
+		if scope != scIP {
+			ip = net.IPv4(127, 0, 1, byte(1+h.probeSeq.Add(1)%250))
+		}
+		if scope != scSrc {
+			dom = fmt.Sprintf("fresh%d.example", h.probeSeq.Add(1))
+		}
+		conn, err := epDial(h.addr, ip)
 		if err != nil {
 			return nil, 0
 		}
@@ -630,7 +674,7 @@ func (h *epHarness) smtpProbe(c *rep.Case, r *rep.Reporter, surplus bool) {
 			return nil, 0
 		}
 		conn.cmd("%s probe.example", hello)
-		code, _ := conn.cmd("MAIL FROM:<probe%d@d0.example>", k)
+		code, _ := conn.cmd("MAIL FROM:<probe@%s>", dom)
 		if code == 250 {
 			code, _ = conn.cmd("RCPT TO:<r@rcpt.example>")
 		}
@@ -643,39 +687,41 @@ func (h *epHarness) smtpProbe(c *rep.Case, r *rep.Reporter, surplus bool) {
 			cn.cmd("QUIT")
 			cn.c.Close()
 		}
+		h.waitSessionsClosed(30 * time.Second)
 	}()
-	for k := 0; k < capN; k++ {
-		conn, code := open(k)
+	for k := 0; k < m; k++ {
+		conn, code := open()
 		if conn == nil {
 			c.Inconclusive("probe connection failed")
-			return
+			return false
 		}
 		conns = append(conns, conn)
 		if code == 451 {
-			c.Violation("quiescent/fewer-than-limit-grantable/scope="+binding+"/via=endpoint-smtp",
-				fmt.Sprintf("all sessions have ended, yet only %d of %d transactions were admitted (the next one got 451 after the limit time-out)", k, capN),
-				map[string]any{"granted": k, "limit": capN, "scenario": h.sc})
-			return
+			c.Violation("quiescent/fewer-than-limit-grantable/scope="+scope+"/via=endpoint-smtp",
+				fmt.Sprintf("all sessions have ended, yet only %d of %d transactions with a fixed %q key were admitted (the next one got 451 after the limit time-out)", k, m, scope),
+				map[string]any{"granted": k, "limit": m, "scenario": h.sc})
+			return false
 		}
 		if code != 250 {
 			c.Inconclusive(fmt.Sprintf("probe transaction got %d", code))
-			return
+			return false
 		}
 	}
 	r.Count("probe_full_capacity_granted", 1)
 	if surplus {
-		conn, code := open(capN)
+		conn, code := open()
 		if conn != nil {
 			conns = append(conns, conn)
 			if code == 250 {
 				c.Violation("quiescent/more-than-limit-grantable/scope="+binding+"/via=endpoint-smtp",
-					fmt.Sprintf("%d transactions are open (limit %d) and one more was admitted", capN, capN),
-					map[string]any{"limit": capN, "scenario": h.sc})
+					fmt.Sprintf("%d transactions are open (limit %d) and one more was admitted", m, m),
+					map[string]any{"limit": m, "scenario": h.sc})
 			} else if code == 451 {
 				r.Count("probe_surplus_refused", 1)
 			}
 		}
 	}
+	return true
 }
 
 func runEndpointCases(t *testing.T, r *rep.Reporter, env instrEnv) {
@@ -779,7 +825,18 @@ func runEndpointCases(t *testing.T, r *rep.Reporter, env instrEnv) {
 				pb.probeAll(epIP(0), usedDom, "")
 				cr.Report(c, "endpoint", sc)
 			default:
-				h.smtpProbe(c, r, i%2 == 0)
+				// one 5 s surplus check per case, on a scope that rotates with the case index
+				var present []string
+				for _, s := range []string{scAll, scIP, scSrc} {
+					if sc.Cfg.N(s) > 0 {
+						present = append(present, s)
+					}
+				}
+				for k, s := range present {
+					if !h.smtpProbe(c, r, s, k == i%len(present)) || h.panicked() {
+						break
+					}
+				}
 				h.reportPanics(c)
 			}
 
@@ -790,6 +847,8 @@ func runEndpointCases(t *testing.T, r *rep.Reporter, env instrEnv) {
 			r.Count("endpoint_rcpt_rejected", st.rcptRefused.Load())
 			r.Count("endpoint_data_failed", st.dataFailed.Load())
 			r.Count("endpoint_rset", st.rsets.Load())
+			r.Count("endpoint_nested_mail", st.nested.Load())
+			r.Count("endpoint_repeated_ehlo", st.rehlo.Load())
 			r.Count("endpoint_quit_mid_transaction", st.quits.Load())
 			r.Count("endpoint_dropped_connections", st.drops.Load())
 			r.Count("endpoint_lost_connections", st.lost.Load())
